@@ -14,3 +14,6 @@ Lemma recheck_inside_mutex_ok : recheck_inside_mutex = Some true.
 Proof. vm_compute. reflexivity. Qed.
 Lemma cache_methods_locked_ok : cache_methods_locked = Some true.
 Proof. vm_compute. reflexivity. Qed.
+(** C09: the in-memory storage backend creates the inner map of a function by one indivisible step *)
+Lemma memstore_atomic_insert_ok : memstore_atomic_insert = Some true.
+Proof. vm_compute. reflexivity. Qed.
